@@ -7,6 +7,13 @@ JSON (Model/JsonFrame.lean)
   * `C20_write_read_id`       : ReadJsonArray over what the writers wrote = the stream (any codec with dec∘enc = id,
                                 any decoder that tokenises framed documents — `LexFrames`, stated explicitly)
   * `C20_read_object_order`   : ReadJsonObject yields the entries in document order (duplicates kept)
+  * `C20_scanner_exact`       : the element scanner of the reader model returns exactly the element, for EVERY
+                                well-formed JSON text (Model/JsonText.lean: nested, strings with escapes, inner white space)
+  * `C20_read_array_document`, `C20_read_object_document` : reading any well-formed array / object document (white
+                                space at every legal position) yields exactly its elements / entries
+  * `C20_write_read_id_json`  : write-then-read identity with the concrete lexer for every stream of well-formed
+                                JSON texts (no tokenisation assumption left)
+  * `C20_read_array_ws`, `C20_read_object_ws` : … for the documents the harness builds, every white-space pattern
   * `C20_lazy_roundtrip`      : unmarshal (marshal l) behaves like l under Get and GetOptional (value and empty)
 File (Model/FileScan.lean)
   * `C20_forward_lines`       : forward scan = the file's lines when every raw line is below the limit
@@ -20,6 +27,8 @@ import ShpanVerif.Model.FileScan
 import ShpanVerif.Proofs.FileScanLemmas
 import ShpanVerif.Proofs.ReverseScanInv
 import ShpanVerif.Proofs.JsonLexLemmas
+import ShpanVerif.Proofs.JsonScanLemmas
+import ShpanVerif.Proofs.JsonParseComplete
 import ShpanVerif.Proofs.FileHeapLemmas
 
 
@@ -158,7 +167,8 @@ theorem C20_write_read_id (enc : α → Bytes) (dec : Bytes → Option α) (lex 
   simpa using this
 
 /-- The tokenisation assumption holds for the driver's concrete lexer `jsonLex` whenever the encoder produces scalar
-JSON texts (`Proofs/JsonLexLemmas.lean`); strings and nested values: correspondence run only. -/
+tokens (`Proofs/JsonLexLemmas.lean`: any non-empty run of bytes without delimiter / quote / bracket / white space —
+also tokens that are no JSON); strings and nested values: `lexFrames_jsonLex_json` below. -/
 theorem lexFrames_jsonLex (enc : α → Bytes) (hs : ∀ x, Proofs.JsonLex.ScalarElem (enc x)) : LexFrames jsonLex enc := by
   intro xs
   have := Proofs.JsonLex.jsonLex_frames (xs.map enc) (by
@@ -167,7 +177,8 @@ theorem lexFrames_jsonLex (enc : α → Bytes) (hs : ∀ x, Proofs.JsonLex.Scala
     exact hs x)
   simpa [map_map, Function.comp_def] using this
 
-/-- `C20_write_read_id` with the concrete lexer, scalar encoders: no assumption left but `dec ∘ enc = id`. -/
+/-- `C20_write_read_id` with the concrete lexer, scalar encoders: no assumption left but `dec ∘ enc = id`.
+(Kept as the scalar special case; the full-strength statement is `C20_write_read_id_json`.) -/
 theorem C20_write_read_id_jsonLex (enc : α → Bytes) (dec : Bytes → Option α)
     (hcodec : ∀ x, dec (enc x) = some x) (hs : ∀ x, Proofs.JsonLex.ScalarElem (enc x)) (xs : List α) :
     readArray dec (jsonLex (writeWithInit true (fun x => some (enc x)) xs).1) = .ok xs ∧
@@ -237,6 +248,228 @@ example : readArray some (jsonLex [0x5B, 0x31, 0x2C, 0x32]) = .ok [[0x31], [0x32
 example : readObject (α := Bytes) some (jsonLex [0x7B, 0x22, 0x61, 0x22, 0x3A, 0x31]) = .error .emitErr := by decide
 
 end readers
+
+/-! # JSON readers at full strength: every well-formed JSON text -/
+section json_full
+open ShpanVerif.Model.JsonFrame ShpanVerif.Model.JsonText ShpanVerif.Proofs.JsonScan
+
+variable {α : Type}
+
+/-- **C20_scanner_exact**: the element scanner of the reader model — bracket-depth counting, string state with
+backslash escapes, scalar run — returns exactly the element and leaves exactly the rest, for EVERY well-formed JSON
+text `render v` (`v.wf`: RFC 8259 numbers and strings, any nesting, any insignificant white space inside) followed by
+a byte that can follow a value inside an array or object (white space, `,`, `]`, `}`). -/
+theorem C20_scanner_exact (v : JT) (h : v.wf = true) (c : UInt8) (tl : Bytes) (hc : isScalarEnd c = true) :
+    scanValue (render v ++ c :: tl) = some (render v, c :: tl) :=
+  scanValue_render v h c tl hc
+
+/-- … and the key scanner: a key with escapes is delimited exactly. -/
+theorem C20_key_scanner_exact (k : Bytes) (h : strBodyOk k = true) (rest : Bytes) :
+    scanStr (k ++ bQuote :: rest) [bQuote] = some (bQuote :: k ++ [bQuote], rest) := by
+  have := scanStr_spec k.length k (Nat.le_refl _) (strScanOk_of_body h) rest [bQuote]
+  simpa using this
+
+theorem arrayLoop_texts (dec : Bytes → Option α) (f : JT → α) (vs : List JT)
+    (h : ∀ v ∈ vs, dec (render v) = some (f v)) (rest : List Tok) (acc : List α) :
+    arrayLoop dec (vs.map (fun v => Tok.val (render v)) ++ Tok.arrClose :: rest) acc = .ok (acc.reverse ++ vs.map f) := by
+  induction vs generalizing acc with
+  | nil => simp [arrayLoop]
+  | cons v vs ih =>
+    simp only [map_cons, cons_append, arrayLoop, h v (by simp)]
+    rw [ih (fun v' hv' => h v' (by simp [hv']))]; simp
+
+/-- **C20_read_array_document**: for EVERY well-formed JSON array text — any elements (nested arrays / objects,
+strings holding brackets, commas, quotes, escapes; numbers in any RFC form), insignificant white space at every legal
+position inside and around, white space before the document, anything after it — `ReadJsonArray` yields exactly the
+elements, in document order: the decoder is applied to exactly each element's text. -/
+theorem C20_read_array_document (dec : Bytes → Option α) (f : JT → α) (pre w0 : Bytes) (is : JItems) (post : Bytes)
+    (hpre : allWs pre = true) (hwf : (JT.arr w0 is).wf = true)
+    (hdec : ∀ v ∈ is.values, dec (render v) = some (f v)) :
+    readArray dec (jsonLex (pre ++ render (.arr w0 is) ++ post)) = .ok (is.values.map f) := by
+  rw [jsonLex_array pre w0 is post hpre hwf]
+  simp only [readArray, cons_append]
+  have := arrayLoop_texts dec f is.values hdec [] []
+  simpa using this
+
+/-- `json.RawMessage` elements: the element texts themselves (inner white space kept, outer dropped). -/
+theorem C20_read_array_document_raw (pre w0 : Bytes) (is : JItems) (post : Bytes)
+    (hpre : allWs pre = true) (hwf : (JT.arr w0 is).wf = true) :
+    readArray some (jsonLex (pre ++ render (.arr w0 is) ++ post)) = .ok (is.values.map render) :=
+  C20_read_array_document some render pre w0 is post hpre hwf (fun _ _ => rfl)
+
+theorem objectLoop_texts (dec : Bytes → Option α) (f : JT → α) (kvs : List (Bytes × JT))
+    (h : ∀ kv ∈ kvs, dec (render kv.2) = some (f kv.2)) (rest : List Tok) (acc : List (Bytes × α)) :
+    objectLoop dec (kvs.flatMap (fun kv => [Tok.key kv.1, Tok.val (render kv.2)]) ++ Tok.objClose :: rest) acc =
+      .ok (acc.reverse ++ kvs.map (fun kv => (kv.1, f kv.2))) := by
+  induction kvs generalizing acc with
+  | nil => simp [objectLoop]
+  | cons kv kvs ih =>
+    simp only [flatMap_cons, cons_append, nil_append, objectLoop, h kv (by simp)]
+    rw [ih (fun kv' hkv' => h kv' (by simp [hkv']))]; simp
+
+/-- **C20_read_object_document**: for EVERY well-formed JSON object text (keys with escapes, repeated keys, white
+space around keys, colons, values and commas) `ReadJsonObject` yields exactly the entries, in document order,
+duplicates kept: (key text, decoded value). The key text is handed to the key decoder (`JsonText.decodeKey`). -/
+theorem C20_read_object_document (dec : Bytes → Option α) (f : JT → α) (pre w0 : Bytes) (es : JEnts) (post : Bytes)
+    (hpre : allWs pre = true) (hwf : (JT.obj w0 es).wf = true)
+    (hdec : ∀ kv ∈ es.entries, dec (render kv.2) = some (f kv.2)) :
+    readObject dec (jsonLex (pre ++ render (.obj w0 es) ++ post)) = .ok (es.entries.map (fun kv => (kv.1, f kv.2))) := by
+  rw [jsonLex_object pre w0 es post hpre hwf]
+  simp only [readObject, cons_append, entToks]
+  have := objectLoop_texts dec f es.entries hdec [] []
+  simpa using this
+
+theorem C20_read_object_document_raw (pre w0 : Bytes) (es : JEnts) (post : Bytes)
+    (hpre : allWs pre = true) (hwf : (JT.obj w0 es).wf = true) :
+    readObject some (jsonLex (pre ++ render (.obj w0 es) ++ post)) =
+      .ok (es.entries.map (fun kv => (kv.1, render kv.2))) :=
+  C20_read_object_document some render pre w0 es post hpre hwf (fun _ _ => rfl)
+
+/-- **C20_isJsonText_iff**: well-formedness is a decidable predicate on BYTES — `isJsonText e` holds exactly when `e` is
+the text of a well-formed tree (soundness by construction, completeness: `Proofs/JsonParseComplete.lean`). The
+hypotheses `isJsonText (enc x) = true` below therefore exclude nothing of the grammar. -/
+theorem C20_isJsonText_iff (e : Bytes) : isJsonText e = true ↔ ∃ t : JT, t.wf = true ∧ render t = e :=
+  Proofs.JsonParse.isJsonText_iff e
+
+/-- `jsonLex` tokenises the framed document of ANY well-formed JSON texts. -/
+theorem jsonLex_frame_json (es : List Bytes) (h : ∀ e ∈ es, isJsonText e = true) :
+    jsonLex (frame es) = Tok.arrOpen :: es.map Tok.val ++ [Tok.arrClose] := by
+  obtain ⟨ts, hts, rfl⟩ := witness_list es h
+  rw [frame_eq_render]
+  have := jsonLex_array [] [] (JItems.ofList ts) [] rfl (by simpa [JT.wf, allWs] using ofList_wf ts hts)
+  simp only [nil_append, append_nil] at this
+  rw [this, ofList_values]
+  simp [map_map, Function.comp_def]
+
+/-- The tokenisation assumption of `C20_write_read_id` holds for the concrete lexer and EVERY encoder that produces
+well-formed JSON texts (`isJsonText`, decidable) — strings, nested arrays and objects included. -/
+theorem lexFrames_jsonLex_json (enc : α → Bytes) (h : ∀ x, isJsonText (enc x) = true) : LexFrames jsonLex enc := by
+  intro xs
+  have := jsonLex_frame_json (xs.map enc) (by
+    intro e he
+    obtain ⟨x, _, rfl⟩ := mem_map.mp he
+    exact h x)
+  simpa [map_map, Function.comp_def] using this
+
+theorem arrayLoop_vals_mem (enc : α → Bytes) (dec : Bytes → Option α) (xs : List α)
+    (hcodec : ∀ x ∈ xs, dec (enc x) = some x) (rest : List Tok) (acc : List α) :
+    arrayLoop dec ((xs.map (fun x => Tok.val (enc x))) ++ Tok.arrClose :: rest) acc = .ok (acc.reverse ++ xs) := by
+  induction xs generalizing acc with
+  | nil => simp [arrayLoop]
+  | cons x xs ih =>
+    simp only [map_cons, cons_append, arrayLoop, hcodec x (by simp)]
+    rw [ih (fun x' hx' => hcodec x' (by simp [hx']))]; simp
+
+/-- **C20_write_read_id_json** (full strength): for every stream `xs` whose elements encode to well-formed JSON texts
+and decode back (`dec (enc x) = x` on the elements of the stream), reading what either writer helper wrote — with the
+concrete lexer, no tokenisation assumption — yields exactly `xs`. -/
+theorem C20_write_read_id_json (enc : α → Bytes) (dec : Bytes → Option α) (xs : List α)
+    (hcodec : ∀ x ∈ xs, dec (enc x) = some x) (hjson : ∀ x ∈ xs, isJsonText (enc x) = true) :
+    readArray dec (jsonLex (writeWithInit true (fun x => some (enc x)) xs).1) = .ok xs ∧
+    readArray dec (jsonLex (writeAsReader (fun x => some (enc x)) xs).1) = .ok xs := by
+  rw [C20_writer_with_init, C20_writer_as_reader]
+  have hl := jsonLex_frame_json (xs.map enc) (by
+    intro e he
+    obtain ⟨x, hx, rfl⟩ := mem_map.mp he
+    exact hjson x hx)
+  simp only [hl, readArray, map_map, Function.comp_def, cons_append]
+  have := arrayLoop_vals_mem enc dec xs hcodec [] []
+  simpa using this
+
+/-- The same on trees: every list of well-formed JSON values, written by either helper and read back as raw
+messages, comes back as exactly the texts of the values. -/
+theorem C20_write_read_id_values (ts : List JT) (h : ∀ t ∈ ts, t.wf = true) :
+    readArray some (jsonLex (writeWithInit true (fun t => some (render t)) ts).1) = .ok (ts.map render) ∧
+    readArray some (jsonLex (writeAsReader (fun t => some (render t)) ts).1) = .ok (ts.map render) := by
+  rw [C20_writer_with_init, C20_writer_as_reader, frame_eq_render]
+  have := C20_read_array_document_raw [] [] (JItems.ofList ts) [] rfl (by simpa [JT.wf, allWs] using ofList_wf ts h)
+  simp only [nil_append, append_nil, ofList_values] at this
+  exact ⟨this, this⟩
+
+/-- **C20_read_array_ws**: the documents the harness builds — white space `wsf i` (any white-space-valued function of
+the position: before "[", before and after every element, inside the empty array, after "]") around ANY well-formed
+element texts — read back as exactly the element texts. -/
+theorem C20_read_array_ws (wsf : Nat → Bytes) (hws : ∀ i, allWs (wsf i) = true) (es : List Bytes)
+    (h : ∀ e ∈ es, isJsonText e = true) :
+    readArray some (jsonLex (arrDoc wsf es)) = .ok es := by
+  obtain ⟨ts, hts, rfl⟩ := witness_list es h
+  rw [arrDoc_eq]
+  have hwf : (JT.arr (if ts.isEmpty then wsf 3 else []) (itemsAt wsf 0 ts)).wf = true := by
+    simp only [JT.wf, Bool.and_eq_true]
+    refine ⟨?_, itemsAt_wf wsf hws ts 0 hts⟩
+    split
+    · exact hws 3
+    · rfl
+  have := C20_read_array_document_raw (wsf 7) _ (itemsAt wsf 0 ts) (wsf 5) (hws 7) hwf
+  rw [this, itemsAt_values]
+
+/-- **C20_read_object_ws**: … and the object documents: entries = (key body in escaped form, value text); the reader
+yields (key text, value text) for every entry, in order, repeated keys kept. -/
+theorem C20_read_object_ws (wsf : Nat → Bytes) (hws : ∀ i, allWs (wsf i) = true) (es : List (Bytes × Bytes))
+    (h : ∀ kv ∈ es, strBodyOk kv.1 = true ∧ isJsonText kv.2 = true) :
+    readObject some (jsonLex (objDoc wsf es)) = .ok (es.map (fun kv => (bQuote :: kv.1 ++ [bQuote], kv.2))) := by
+  obtain ⟨kts, hts, rfl⟩ := witness_entries es (fun kv hkv => (h kv hkv).2)
+  have hk : ∀ kv ∈ kts, strBodyOk kv.1 = true ∧ kv.2.wf = true := by
+    intro kv hkv
+    refine ⟨?_, hts kv hkv⟩
+    have := (h (kv.1, render kv.2) (mem_map.mpr ⟨kv, hkv, rfl⟩)).1
+    simpa using this
+  rw [objDoc_eq]
+  have hwf : (JT.obj (if kts.isEmpty then wsf 3 else []) (entsAt wsf 0 kts)).wf = true := by
+    simp only [JT.wf, Bool.and_eq_true]
+    refine ⟨?_, entsAt_wf wsf hws kts 0 hk⟩
+    split
+    · exact hws 3
+    · rfl
+  have := C20_read_object_document_raw (wsf 7) _ (entsAt wsf 0 kts) (wsf 5) (hws 7) hwf
+  rw [this, entsAt_entries]
+  simp [map_map, Function.comp_def]
+
+/-- the four white-space patterns of the generator (`rdarr <ws>` / `rdobj <ws>` cases) -/
+theorem C20_read_array_harness (ws : Nat) (es : List Bytes) (h : ∀ e ∈ es, isJsonText e = true) :
+    readArray some (jsonLex (arrDoc (wsOf ws) es)) = .ok es :=
+  C20_read_array_ws (wsOf ws) (wsOf_allWs ws) es h
+
+theorem C20_read_object_harness (ws : Nat) (es : List (Bytes × Bytes))
+    (h : ∀ kv ∈ es, strBodyOk kv.1 = true ∧ isJsonText kv.2 = true) :
+    readObject some (jsonLex (objDoc (wsOf ws) es)) = .ok (es.map (fun kv => (bQuote :: kv.1 ++ [bQuote], kv.2))) :=
+  C20_read_object_ws (wsOf ws) (wsOf_allWs ws) es h
+
+/-! ### non-vacuity -/
+
+/-- depth 9, white space of all four kinds inside, empty array and object, keys with escapes, exponent number:
+`{"a" : [ [ [ [ [ [ { "k\"]" : [ ] , "\u00e9\\" : { } } ] ] ,[]] ] ] , -1.5E+3 ],\t"b":\r\n null}` -/
+def exDeep : Bytes := [0x7B, 0x22, 0x61, 0x22, 0x20, 0x3A, 0x20, 0x5B, 0x20, 0x5B, 0x20, 0x5B, 0x20, 0x5B, 0x20, 0x5B, 0x20, 0x5B, 0x20, 0x7B, 0x20, 0x22, 0x6B, 0x5C, 0x22, 0x5D, 0x22, 0x20, 0x3A, 0x20, 0x5B, 0x20, 0x5D, 0x20, 0x2C, 0x20, 0x22, 0x5C, 0x75, 0x30, 0x30, 0x65, 0x39, 0x5C, 0x5C, 0x22, 0x20, 0x3A, 0x20, 0x7B, 0x20, 0x7D, 0x20, 0x7D, 0x20, 0x5D, 0x20, 0x5D, 0x20, 0x2C, 0x5B, 0x5D, 0x5D, 0x20, 0x5D, 0x20, 0x5D, 0x20, 0x2C, 0x20, 0x2D, 0x31, 0x2E, 0x35, 0x45, 0x2B, 0x33, 0x20, 0x5D, 0x2C, 0x09, 0x22, 0x62, 0x22, 0x3A, 0x0D, 0x0A, 0x20, 0x6E, 0x75, 0x6C, 0x6C, 0x7D]
+/-- a string with every escape kind, a surrogate pair, and every delimiter: `"q\"b\\s\/\b\f\n\r\t\u2028\ud83d\ude00 [,]{}:"` -/
+def exEsc : Bytes := [0x22, 0x71, 0x5C, 0x22, 0x62, 0x5C, 0x5C, 0x73, 0x5C, 0x2F, 0x5C, 0x62, 0x5C, 0x66, 0x5C, 0x6E, 0x5C, 0x72, 0x5C, 0x74, 0x5C, 0x75, 0x32, 0x30, 0x32, 0x38, 0x5C, 0x75, 0x64, 0x38, 0x33, 0x64, 0x5C, 0x75, 0x64, 0x65, 0x30, 0x30, 0x20, 0x5B, 0x2C, 0x5D, 0x7B, 0x7D, 0x3A, 0x22]
+/-- `-0.0e-7` -/
+def exNum : Bytes := [0x2D, 0x30, 0x2E, 0x30, 0x65, 0x2D, 0x37]
+
+example : isJsonText exDeep = true ∧ isJsonText exEsc = true ∧ isJsonText exNum = true := by decide +kernel
+example : (witness exDeep).map JT.depth = some 9 := by decide +kernel
+/-- rejected: unbalanced, control byte in a string, bad escape, leading zero, trailing comma, bare word -/
+example : isJsonText [0x5B, 0x5B, 0x5D] = false ∧ isJsonText [0x22, 0x0A, 0x22] = false ∧
+    isJsonText [0x22, 0x5C, 0x78, 0x22] = false ∧ isJsonText [0x30, 0x31] = false ∧
+    isJsonText [0x5B, 0x31, 0x2C, 0x5D] = false ∧ isJsonText [0x6E, 0x75, 0x6C] = false := by decide +kernel
+
+/-- `C20_read_array_harness` applies to these elements under the richest white-space pattern … -/
+example : readArray some (jsonLex (arrDoc (wsOf 3) [exDeep, exEsc, [0x5B, 0x5D], exNum, [0x7B, 0x7D]])) =
+    .ok [exDeep, exEsc, [0x5B, 0x5D], exNum, [0x7B, 0x7D]] :=
+  C20_read_array_harness 3 _ (by decide +kernel)
+/-- … `C20_write_read_id_json` to the stream of these texts (codec = identity on texts) … -/
+example : readArray some (jsonLex (writeWithInit true (fun x => some (id x)) [exDeep, exEsc, exNum]).1) =
+    .ok [exDeep, exEsc, exNum] :=
+  (C20_write_read_id_json id some [exDeep, exEsc, exNum] (fun _ _ => rfl) (by decide +kernel)).1
+/-- … and `C20_read_object_harness` to entries with escaped and repeated keys: `k\"\u0041]`, the empty key. -/
+example : readObject some (jsonLex (objDoc (wsOf 2) [([0x6B, 0x5C, 0x22, 0x5C, 0x75, 0x30, 0x30, 0x34, 0x31, 0x5D], exDeep), ([], exEsc), ([0x6B, 0x5C, 0x22, 0x5C, 0x75, 0x30, 0x30, 0x34, 0x31, 0x5D], exNum)])) =
+    .ok [(bQuote :: [0x6B, 0x5C, 0x22, 0x5C, 0x75, 0x30, 0x30, 0x34, 0x31, 0x5D] ++ [bQuote], exDeep), ([bQuote, bQuote], exEsc), (bQuote :: [0x6B, 0x5C, 0x22, 0x5C, 0x75, 0x30, 0x30, 0x34, 0x31, 0x5D] ++ [bQuote], exNum)] :=
+  C20_read_object_harness 2 _ (by decide +kernel)
+/-- the decoded keys (what `ReadJsonObject` reports as `Entry.Key`): `k"A]`; a lone surrogate → U+FFFD -/
+example : decodeKey [0x6B, 0x5C, 0x22, 0x5C, 0x75, 0x30, 0x30, 0x34, 0x31, 0x5D] = [0x6B, 0x22, 0x41, 0x5D] := by decide +kernel
+example : decodeKey [0x5C, 0x75, 0x64, 0x38, 0x33, 0x64, 0x5C, 0x75, 0x64, 0x65, 0x30, 0x30] = [0xF0, 0x9F, 0x98, 0x80] ∧
+    decodeKey [0x5C, 0x75, 0x64, 0x38, 0x33, 0x64, 0x78] = [0xEF, 0xBF, 0xBD, 0x78] := by decide +kernel
+
+end json_full
 
 /-! # Lazy -/
 section lazy
